@@ -23,6 +23,8 @@ class SdoServer(SdoBase):
         SdoBase.__init__(self, rx_cobid, tx_cobid, node.object_dictionary)
         self._node = node
         self._buffer = None
+        #: Kind of segmented transfer in progress ("upload", "download" or None)
+        self._transfer = None
         self._toggle = 0
         self._index = 0
         self._subindex = 0
@@ -61,6 +63,7 @@ class SdoServer(SdoBase):
         _, index, subindex = SDO_STRUCT.unpack_from(request)
         self._index = index
         self._subindex = subindex
+        self._transfer = None
         res_command = RESPONSE_UPLOAD | SIZE_SPECIFIED
         response = bytearray(8)
 
@@ -76,11 +79,15 @@ class SdoServer(SdoBase):
             struct.pack_into("<L", response, 4, size)
             self._buffer = bytearray(data)
             self._toggle = 0
+            self._transfer = "upload"
 
         SDO_STRUCT.pack_into(response, 0, res_command, index, subindex)
         self.send_response(response)
 
     def segmented_upload(self, command):
+        if self._transfer != "upload":
+            # No segmented upload in progress
+            raise SdoAbortedError(0x05040001)
         if command & TOGGLE_BIT != self._toggle:
             # Toggle bit mismatch
             raise SdoAbortedError(0x05030000)
@@ -98,6 +105,7 @@ class SdoServer(SdoBase):
         if not self._buffer:
             # Nothing left in buffer
             res_command |= NO_MORE_DATA
+            self._transfer = None
         # Toggle bit for next message
         self._toggle ^= TOGGLE_BIT
 
@@ -128,6 +136,7 @@ class SdoServer(SdoBase):
         command, index, subindex = SDO_STRUCT.unpack_from(request)
         self._index = index
         self._subindex = subindex
+        self._transfer = None
         res_command = RESPONSE_DOWNLOAD
         response = bytearray(8)
 
@@ -145,11 +154,15 @@ class SdoServer(SdoBase):
                 logger.info("Size is %d bytes", size)
             self._buffer = bytearray()
             self._toggle = 0
+            self._transfer = "download"
 
         SDO_STRUCT.pack_into(response, 0, res_command, index, subindex)
         self.send_response(response)
 
     def segmented_download(self, command, request):
+        if self._transfer != "download":
+            # No segmented download in progress
+            raise SdoAbortedError(0x05040001)
         if command & TOGGLE_BIT != self._toggle:
             # Toggle bit mismatch
             raise SdoAbortedError(0x05030000)
@@ -157,6 +170,7 @@ class SdoServer(SdoBase):
         self._buffer.extend(request[1:last_byte])
 
         if command & NO_MORE_DATA:
+            self._transfer = None
             self._node.set_data(self._index,
                                 self._subindex,
                                 self._buffer,
